@@ -529,6 +529,13 @@ def p44(): return lambda e: (rescaled_h(e.a), rescaled_h(e.b, 2.0, u="keV"))
 def band_h(x, edges=(20.0, float("inf")), *, also=[float("-inf"), 1.5]): return x.between(edges[0], edges[1], also[1])
 def d45(ds): return ds.Select(lambda e: band_h(e.a))
 def p45(): return lambda e: band_h(e.a)
+# a function that stays a call by name, called inside the CONDITION of a comprehension of the helper, under a name the passed lambda binds
+def root46(k):
+    y = k + 1
+    return y
+def pick_h(x): return x.f({k: k for k in (4, 5) if root46(k) > 5 if k < 9})
+def d46(ds): return ds.Select(lambda root46: pick_h(root46.v))
+def p46(): return lambda root46: pick_h(root46.v)
 # a captured lambda assigned the ordinary way
 add_one = lambda x: x.plus1
 def d25(ds): return ds.Select(lambda e: add_one(e.v))
@@ -552,7 +559,7 @@ def p6(): return lambda e: e.jets.Select(lambda j: two(j, e))
 
 def directed(ctx):
     m = modgen.load(DIRECTED, "c05d")
-    env = {n: getattr(m, n) for n in ("ident", "const", "sh", "addy", "two", "outer", "add3", "deep", "inner_kw", "outer_kw", "add_to_all", "table", "five_plus", "shifted", "corrected", "next_one", "after_deco", "nothing", "plus_1", "plus_1_then_10", "scale2", "inner_s", "outer_s", "helper_k", "h_b", "h_c", "add_one", "calibrated", "to_gev", "offset", "adder", "call_with_y", "plus_one", "inc_h", "apply_h", "bump_h", "twice_h", "compose_h", "cut10", "cut20", "in_a", "in_b", "up2", "down2", "made_hh", "stepped_h", "root_c05", "dist_h", "hyp_h", "corrected_h", "rescaled_h", "band_h")}
+    env = {n: getattr(m, n) for n in ("ident", "const", "sh", "addy", "two", "outer", "add3", "deep", "inner_kw", "outer_kw", "add_to_all", "table", "five_plus", "shifted", "corrected", "next_one", "after_deco", "nothing", "plus_1", "plus_1_then_10", "scale2", "inner_s", "outer_s", "helper_k", "h_b", "h_c", "add_one", "calibrated", "to_gev", "offset", "adder", "call_with_y", "plus_one", "inc_h", "apply_h", "bump_h", "twice_h", "compose_h", "cut10", "cut20", "in_a", "in_b", "up2", "down2", "made_hh", "stepped_h", "root_c05", "dist_h", "hyp_h", "corrected_h", "rescaled_h", "band_h", "pick_h", "root46")}
     tags = ["bare-parameter", "constant-body", "nested-lambda-shadows-parameter", "argument-captured-by-inner-binder", "reordered-keywords", "helper-calls-helper", "call-in-nested-lambda", "curried-two-deep-lambdas-argument-names-innermost", "two-deep-nested-lambdas-argument-names-innermost",
             "keyword-only-parameter-hides-argument", "default-of-a-lambda-that-stays", "new-name-already-bound-in-scope", "keyword-of-a-call-that-stays", "default-bound-at-definition",
             "bound-method", "functools-wraps-wrapper", "lambda-on-the-decorator-line", "bare-return", "closures-of-one-factory-calling-each-other",
@@ -564,7 +571,7 @@ def directed(ctx):
             "sibling-lambdas-of-one-comprehension-differing-in-defaults", "closures-of-one-factory-differing-in-defaults",
             "function-default-written-with-a-loop-variable", "function-default-written-with-a-factory-parameter", "function-default-whose-name-was-deleted",
             "early-bound-function-name-bound-by-the-passed-lambda", "early-bound-function-name-bound-by-an-outer-helper",
-            "defaults-on-positional-only-ordinary-and-keyword-only-parameters", "constant-defaults-replaced-after-the-def", "tuple-default-holding-inf"]
+            "defaults-on-positional-only-ordinary-and-keyword-only-parameters", "constant-defaults-replaced-after-the-def", "tuple-default-holding-inf", "function-called-in-a-comprehension-condition-named-like-the-lambda-parameter"]
     for i, tag in enumerate(tags):
         ctx.case("directed:" + tag, True)
         expected = probe.behaviour(getattr(m, f"p{i}")())
